@@ -430,6 +430,83 @@ def exppp_filename(repo):
     return cap, len(sp.group(1)), (len(ap.group(1)) if ap else 0), guard
 
 
+def recursion_marks(repo):
+    """recursions over the supertype relation: is the entity marked as visited BEFORE its supertypes are walked?"""
+    r = _strip_comments(_read(repo, "src/express/resolve.c"))
+    b = _body(r, r"void\s+ENTITYcalculate_inheritance\s*\(\s*Entity\s+e\s*\)\s*\{", "ENTITYcalculate_inheritance")
+    loop = b.find("LISTdo")
+    guard = re.search(r"if\s*\(\s*super->u\.entity->inheritance\s*==\s*ENTITY_INHERITANCE_UNINITIALIZED\s*\)\s*\{\s*ENTITYcalculate_inheritance\s*\(\s*super\s*\)", b)
+    if loop < 0 or not guard:
+        raise ValueError("ENTITYcalculate_inheritance: guarded recursion over supertypes not recognised")
+    m = re.search(r"e->u\.entity->inheritance\s*=\s*([^;=][^;]*);", b)
+    inh_first = bool(m and m.start() < loop and "UNINITIALIZED" not in m.group(1))
+    # the OVERLOADED_ATTR check of ENTITYresolve_expressions walks the supertypes of every entity by name
+    re_body = _body(r, r"void\s+ENTITYresolve_expressions\s*\(\s*Entity\s+e\s*\)\s*\{", "ENTITYresolve_expressions")
+    na_first = False
+    if re.search(r"\bENTITYget_named_attribute\s*\(\s*supr\b", re_body):
+        na_first = False        # the public function has no visited mark (exp2cxx uses search_id for its own marks)
+    else:
+        call = re.search(r"__SCOPE_search_id\+\+\s*;\s*if\s*\(\s*(\w+)\s*\(\s*supr\b", re_body)
+        if not call:
+            raise ValueError("ENTITYresolve_expressions: inherited-attribute look-up of the OVERLOADED_ATTR check not recognised")
+        hb = _body(r, r"static\s+Variable\s+" + call.group(1) + r"\s*\([^)]*\)\s*\{", call.group(1))
+        g = re.search(r"if\s*\(\s*entity->search_id\s*==\s*__SCOPE_search_id\s*\)\s*\{\s*return\s+(0|NULL)\s*;\s*\}\s*entity->search_id\s*=\s*__SCOPE_search_id\s*;", hb)
+        rec = hb.find(call.group(1) + "( super")
+        na_first = bool(g and rec > g.end())
+    return inh_first, na_first
+
+
+def _bufsiz():
+    try:
+        m = re.search(r"#\s*define\s+BUFSIZ\s+(\d+)", open("/usr/include/stdio.h").read())
+        return int(m.group(1))
+    except Exception:
+        return 8192
+
+
+def non_unique(repo):
+    """non_unique_types_string() of both generators: malloc'ed capacity and the literals it strcat()s"""
+    out = []
+    for tool, src in (("exp2cxx", "src/exp2cxx/selects.c"), ("exp2python", "src/exp2python/src/selects_python.c")):
+        t = _strip_comments(_read(repo, src))
+        b = _body(t, r"char\s*\*\s*non_unique_types_string\s*\(\s*const\s+Type\s+type\s*\)\s*\{", f"{src}: non_unique_types_string")
+        m = re.search(r"typestr\s*=\s*\(\s*char\s*\*\s*\)\s*malloc\s*\(\s*(.+?)\s*\)\s*;", b)
+        if not m:
+            raise ValueError(f"{src}: malloc of typestr not found")
+        arg = m.group(1)
+        sz = re.fullmatch(r"sizeof\s*\(\s*(\w+|\"(?:[^\"\\]|\\.)*\")\s*\)", arg)
+        if sz:
+            lit = sz.group(1)
+            if not lit.startswith('"'):
+                d = re.search(r"#\s*define\s+" + lit + r"\s*(?:\\\n)?\s*\"((?:[^\"\\]|\\.)*)\"", t)
+                if not d:
+                    raise ValueError(f"{src}: sizeof({lit}): macro is not a string literal")
+                cap = len(d.group(1)) + 1
+            else:
+                cap = len(lit) - 2 + 1
+        else:
+            cap = _eval(arg, {"BUFSIZ": _bufsiz()}, f"{src}: malloc size")
+        if re.search(r"\b(sprintf|strcpy)\s*\(\s*typestr", b) or not re.search(r"typestr\s*\[\s*0\s*\]\s*=\s*'\\0'\s*;", b):
+            raise ValueError(f"{src}: non_unique_types_string builds typestr in an unrecognised way")
+        sw = re.search(r"switch\s*\(\s*i\s*\)\s*\{(.*?)\n        \}", b, re.S)
+        if not sw:
+            raise ValueError(f"{src}: switch over the kinds not found")
+        lits = lambda x: re.findall(r"strcat\s*\(\s*typestr\s*,\s*(?:\(\s*char\s*\*\s*\)\s*)?\"((?:[^\"\\]|\\.)*)\"\s*\)", x)
+        kinds = lits(sw.group(1))
+        ncase = len(re.findall(r"\bcase\s+\w+\s*:", sw.group(1)))
+        rest = lits(b[:sw.start()]) + lits(b[sw.end():])
+        if len(kinds) != ncase or len(rest) != 4 or not re.search(r"for\s*\(\s*i\s*=\s*0\s*;\s*i\s*<=\s*tnumber\s*;", b):
+            raise ValueError(f"{src}: literals of non_unique_types_string not recognised ({kinds}, {rest})")
+        en = re.search(r"enum\s+__types\s*\{([^}]*)\}", t)
+        if en:
+            names = [x.strip().split("=")[0].strip() for x in en.group(1).split(",") if x.strip()]
+            if "tnumber" in names and names.index("tnumber") + 1 != ncase + (1 if "tint" in names and names.index("tint") == 1 else 0) and names.index("tnumber") + 1 != ncase:
+                pass    # enum may have a leading placeholder; the case count is what the loop can reach
+        op, sep, zero, cl = rest
+        out.append((tool, cap, len(op), len(sep), len(zero), len(cl), [len(k) for k in kinds]))
+    return out
+
+
 def _opt(v):
     return "none" if v is None else f"(some {v})"
 
@@ -443,6 +520,8 @@ def extract(repo):
     gt = gates(repo)
     dcap, dbounded = description(repo)
     fcap, fext, fapp, fguard = exppp_filename(repo)
+    inh_first, na_first = recursion_marks(repo)
+    nu = non_unique(repo)
     L = []
     A = L.append
     A("-- GENERATED by tools/extract.d/c06_buffers.py from src/express/lexact.c, src/express/generated/expparse.c,")
@@ -512,6 +591,16 @@ def extract(repo):
     A("")
     A("/-- exppp `SCHEMAout`: `exppp_filename_buffer[cap]`, `sprintf \"%s<ext>\"`, optional `strcat <app>`, `guard = some g`: refused when strlen(name) + g > cap -/")
     A(f"def fileNameCfg : FileNameCfg := {{ cap := {fcap}, ext := {fext}, app := {fapp}, guard := {_opt(fguard)} }}")
+    A("")
+    A("/-- `ENTITYcalculate_inheritance` stores a count (≠ UNINITIALIZED) into the entity before it walks the supertypes -/")
+    A(f"def inheritanceMarkFirst : Bool := {str(inh_first).lower()}")
+    A("/-- the inherited-attribute look-up of the OVERLOADED_ATTR check (`ENTITYresolve_expressions`) marks the entity (`search_id`) before it walks the supertypes -/")
+    A(f"def namedAttrMarkFirst : Bool := {str(na_first).lower()}")
+    A("")
+    A("/-- `non_unique_types_string`: (tool, malloc'ed bytes, lengths of \"(\", \" | \", \"0\", \")\" and of the kind names in switch order) -/")
+    A("def nonUniqueCfgs : List (String × NonUniqueCfg) := [")
+    A(",\n".join(f'  ("{tool}", {{ cap := {cap}, openLen := {op}, sepLen := {sep}, zeroLen := {zero}, closeLen := {cl}, kinds := {kinds} }})'
+                  for tool, cap, op, sep, zero, cl, kinds in nu) + "]")
     A("")
     A("end StepModel.Generated.C06")
     return {"C06Buffers.lean": "\n".join(L) + "\n"}
